@@ -203,8 +203,9 @@ KF_C05_1_Blocks(X) ==
             /\ WholeDeleted(X.t.pre, X.t.reqs, nb) /\ ToProxy(X.t.reqs, nb)}
 KF_C05_1_Names(X) == UNION {Range(a.ss) \cup Range(a.es) : a \in KF_C05_1_Blocks(X)}
 
-\* KF-C01-2: insertion at offset x of a block, deletion of [x, end of the block) and
-\* another insertion at the block's end.  When the first insertion leaves the tail
+\* KF-C01-2: a modification ending at offset x of a block (insertion at x, replacement
+\* or deletion of bytes in front of x), deletion of [x, end of the block) and an
+\* insertion at the block's end.  When the first modification leaves the tail
 \* as a block of its own (patch with a label / terminator, or no function tables)
 \* the deletion removes that whole block, delete() returns None and the next
 \* modification of the same original block trips `assert isinstance(actual_block,
@@ -214,7 +215,7 @@ KF_C01_2(X) ==
   /\ \E d \in Range(X.t.reqs) :
         LET b == BlockByU(X.t.pre, d.u)
         IN  /\ d.op = "del" /\ d.off > 0 /\ d.len > 0 /\ d.off + d.len = b.n
-            /\ \E r1 \in Range(X.t.reqs) : r1.op \in {"ins", "rep"} /\ r1.u = d.u /\ r1.off + r1.len = d.off
+            /\ \E r1 \in Range(X.t.reqs) : r1 # d /\ r1.u = d.u /\ r1.off + r1.len = d.off
             /\ \E r3 \in Range(X.t.reqs) : r3.op = "ins" /\ r3.u = d.u /\ r3.off = b.n
 
 \* KF-C09-1: a patch names a label whose block an earlier request of the same
